@@ -8,6 +8,21 @@ CHECKS = {
     note="Lean kernel + propext/Classical.choice/Quot.sound; the hand-written model murmurPy is tied by differential runs only; strings < 2^32 code points; CPython int semantics.",
     technique="Lean 4 proof (refinement of unbounded-int arithmetic to BitVec 32 by induction over blocks) + model/implementation correspondence",
     ref="§6 C14"),
+ "C17": dict(
+    text="Lean theorem C17_retry_spec characterises, for every attempts >= 1, every retry_for/do_not_retry_for lists, every subclass relation and every outcome script, the number of invocations and sleeps and the returned value / re-raised exception of the transliterated _retry loop (plus C17_validate_spec for the constructor); the model is tied to /repo by an exhaustive differential run (attempts 1..3(4) x all outcome sequences x all 256 class-list pairs) and a model-independent monitor on the call/sleep log.",
+    note="Lean kernel + standard axioms; isinstance abstracted to a subclass relation; hand-written model tied by differential runs; sleep observed by patching retrying.sleep.",
+    technique="Lean 4 proof (induction over the attempt loop) + exhaustive model/implementation correspondence",
+    ref="§6 C17"),
+ "C18": dict(
+    text="Lean theorems C18_read_first_hit / C18_read_all_miss / C18_writes_only_primary hold for any number of caches and any answers; tied to /repo by exhaustive enumeration of 1..4 caches x {None, falsy, hit} x all read ops and all mutating ops x argument forms.",
+    note="Lean kernel + standard axioms; caches are scripted objects; model tied by exhaustive differential run within the enumerated bound.",
+    technique="Lean 4 proof (induction over the cache list) + exhaustive correspondence",
+    ref="§6 C18"),
+ "C20": dict(
+    text="Lean theorem C20_checkKey_iff_legal(_incl_empty): for every key (str/bytes of any length), prefix and unicode setting, the transliterated check_key_helper accepts with wire form w iff w = prefix + encoding, |w| <= 250 and w has none of the seven forbidden bytes; plus UTF-8 lemmas and proved counterexamples for the pre-fix code. Tied to /repo by exhaustive short keys over byte classes, every byte at several positions, all boundary lengths with multi-byte UTF-8, on check_key_helper, Client, PooledClient and HashClient, with an independent Python statement of the rule as monitor.",
+    note="Lean kernel + standard axioms; bytes.split() and UTF-8 encoding are transliterated and differentially tested against CPython; str keys without lone surrogates.",
+    technique="Lean 4 proof (characterisation of bytes.split and the elif chain) + correspondence",
+    ref="§6 C20"),
 }
 ALL = [f"C{i:02d}" for i in range(1, 21)]
 m = {
